@@ -222,27 +222,50 @@ class FuncVerifier(Verifier):
                             st.reg(p + k)
                     return mk_bool(res)
                 return mk_bool(z3.PrefixOf(lit, s))
-            if name == "find":
+            if name in ("find", "index"):
                 sub = sval(args[0].v)
                 start = ival(args[1].v) if len(args) > 1 else z3.IntVal(0)
-                return mk_int(z3.IndexOf(s, sub, start))
+                if len(args) > 2:
+                    raise EngineError(f"str.{name} with an end argument")
+                res = z3.IndexOf(s, sub, start)
+                sl = z3.simplify(sub)
+                if z3.is_string_value(sl) and len(sl.as_string()) == 1 and not st.spec:
+                    # character-level meaning of searching for ONE character from a non-negative start (valid by the
+                    # semantics of str.find): the result is the first position >= start holding it, or -1 if there is none
+                    r = fresh("find", I)
+                    st.pc.append(z3.Implies(z3.And(start >= 0, start <= z3.Length(s)), r == res))
+                    st.pc.append(z3.Or(r == -1, z3.And(r >= start, r < z3.Length(s), z3.SubString(s, r, 1) == sub)))
+                    st.schemas.append(Schema(lambda k, r=r, s=s, sub=sub, start=start: z3.Implies(
+                        z3.And(start >= 0, k >= start, k < z3.Length(s), z3.Or(r == -1, k < r)), z3.SubString(s, k, 1) != sub), "find-first"))
+                    st.reg(r)
+                    res = z3.If(z3.And(start >= 0, start <= z3.Length(s)), r, res)
+                if name == "index":
+                    if not self._catching(st, "ValueError"):
+                        self.oblige(st, res >= 0, "rte-ValueError", node, "str.index")
+                    st.assume(res >= 0)
+                return mk_int(res)
             if name in ("lstrip", "rstrip", "strip"):
                 fn = z3.Function("py_" + name, S, S, S)
+                self.unmodelled.add("str." + name)   # uninterpreted: a counter-model that depends on it is not a verdict
                 chars = sval(args[0].v) if args else z3.StringVal(" \t\n")
                 res = fn(s, chars)
                 st.assume(z3.Length(res) <= z3.Length(s))
                 return mk_str(res)
             if name == "join":
                 fn = z3.Function("py_join", S, Val, S)
+                self.unmodelled.add("str." + name)   # uninterpreted: a counter-model that depends on it is not a verdict
                 return mk_str(fn(s, self.to_val(st, args[0])))
             if name in ("isspace", "isdigit", "isalpha", "isalnum", "isupper", "islower", "isidentifier", "isascii"):
                 fn = z3.Function("py_" + name, S, B)
+                self.unmodelled.add("str." + name)   # uninterpreted: a counter-model that depends on it is not a verdict
                 return mk_bool(fn(s))
             if name in ("lower", "upper"):
                 fn = z3.Function("py_" + name, S, S)
+                self.unmodelled.add("str." + name)   # uninterpreted: a counter-model that depends on it is not a verdict
                 return mk_str(fn(s))
             if name == "format":
                 fn = z3.Function("py_format", S, S)
+                self.unmodelled.add("str." + name)   # uninterpreted: a counter-model that depends on it is not a verdict
                 return mk_str(fn(s))
             raise EngineError(f"str.{name}")
         r = st.regref(rval(obj.v))
@@ -348,7 +371,7 @@ class FuncVerifier(Verifier):
 
     def on_new(self, st, cname, obj: SV, bound: Dict[str, SV]):
         for clause in self.con.on_new.get(cname, []):
-            sv = self.spec_view(st, dict(bound, new=obj), None)
+            sv = self.spec_view(st, dict(st.locals, **dict(bound, new=obj)), None)   # locals of the function are visible (ghost definitions)
             for f in self.formulas(clause, sv, "assume"):
                 self.add_hyp(st, f)
 
@@ -429,6 +452,9 @@ class FuncVerifier(Verifier):
         qual = self.con.use.get(qual, qual)
         con = CONTRACTS.get(qual)
         if con is None:
+            r = self.inline_function(st, qual, args, kwargs, node) if hasattr(self, "inline_function") else None
+            if r is not None:
+                return r
             raise EngineError(f"call to {qual} which has no contract (line {getattr(node, 'lineno', '?')})")
         bound = self.bind_params(con, None, args, kwargs, node)
         self.callees.add(qual)
